@@ -14,6 +14,7 @@ THEOREMS = [
     "MM.disp_fixed_stays",
     "MM.composite_no_repeat",
     "MM.composite_reports_count",
+    "MM.composite_count",
     "MM.dispCall_spec",
     "MM.attemptLoop_spec",
     "MM.applyDisp_untouched",
@@ -21,8 +22,7 @@ THEOREMS = [
 RULE = ("accepted scripted displacement trials (bare DisplacementMove, CompositeDisplacementMove via + and *, pre-selected and "
         "random targets) on real Canonical/GrandCanonical objects with negative/repeated/non-contiguous/unsorted label arrays and "
         "FixAtoms; non-trivial = an accepted displacement that moved at least one atom, or a failed one; distinct = distinct histories")
-ASSUMPTIONS = c03.ASSUMPTIONS + ["composite members share one labelling (DESIGN §9.1)",
-                                 "composite_count (moved = min(n, eligible) without vetoes) is checked by the oracle only: no theorem yet"]
+ASSUMPTIONS = c03.ASSUMPTIONS + ["composite members share one labelling (DESIGN §9.1)"]
 
 
 def moved_rows(b, a):
